@@ -150,9 +150,23 @@ public:
 		mLast = nullptr;
 	}
 
+	/// <summary>
+	/// Makes own copy of the string key, must be called when the key should outlive next reading from the archive
+	/// (the source `string_view` can refer to a temporary buffer of the stream reader).
+	/// </summary>
+	void HoldStringKey()
+	{
+		if (auto& ref = std::get<std::string_view>(mTuple); mLast == &ref && ref.data() != mStringKeyHolder.data())
+		{
+			mStringKeyHolder.assign(ref.data(), ref.size());
+			ref = mStringKeyHolder;
+		}
+	}
+
 private:
 	TTuple mTuple;
 	void* mLast = nullptr;
+	std::string mStringKeyHolder;
 };
 
 using MsgPackVariableKey = CVariableKey<MsgPackArchiveTraits::supported_key_types>;
@@ -796,6 +810,8 @@ public:
 	{
 		if (FindValueByKey(key))
 		{
+			// The key is a part of path while the child scope is alive
+			mCurrentKey.HoldStringKey();
 			if (size_t sz = 0; mMsgPackReader->ReadArraySize(sz)) {
 				return std::make_optional<CMsgPackReadArrayScope<TReader>>(sz, mMsgPackReader, GetContext(), this);
 			}
@@ -809,6 +825,8 @@ public:
 	{
 		if (FindValueByKey(key))
 		{
+			// The key is a part of path while the child scope is alive
+			mCurrentKey.HoldStringKey();
 			if (size_t sz = 0; mMsgPackReader->ReadMapSize(sz)) {
 				return std::make_optional<CMsgPackReadObjectScope<TReader>>(sz, mMsgPackReader, GetContext(), this);
 			}
@@ -822,6 +840,8 @@ public:
 	{
 		if (FindValueByKey(key))
 		{
+			// The key is a part of path while the child scope is alive
+			mCurrentKey.HoldStringKey();
 			if (size_t sz = 0; mMsgPackReader->ReadBinarySize(sz)) {
 				return std::make_optional<CMsgPackReadBinaryScope<TReader>>(sz, mMsgPackReader, GetContext(), this);
 			}
